@@ -160,8 +160,8 @@ def run(ctx):
         "programs": cs.get("corpus_programs", 0),
         "evaluations": n_cases + msum.get("compilations", 0),
         "distinct_nontrivial": distinct + msum.get("distinct_configurations", 0),
-        "rule": "kernel: every Sierra program of /repo that parses (quick tier: all up to 400 statements + a seeded "
-                "choice of larger ones) plus 1 (thorough: up to 2) seeded mutants of its declaration lists (dup/drop/swap/reverse), each "
+        "rule": "kernel: every Sierra program of /repo that parses (quick tier: all up to 2500 statements + a seeded "
+                "choice of larger ones) plus 1-2 (thorough: 3) seeded mutants of its declaration lists (dup/drop/swap/reverse), each "
                 "under 3 seeded injective renamings (fresh u64s / permutation of the ids in use / dense small numbers); "
                 "distinct = distinct canonical results returned by the implementation (counted by the harness on the "
                 "printed structure). maps: seeded operation sequences over small key spaces (3..200 keys, so overwrites "
